@@ -15,7 +15,7 @@ from ..tyast import Ty, FieldM, ClassM, describe, build, _serial
 
 PLAN = {
     'quick': {'shards': 16, 'budget': 60, 'timeout': 1200},
-    'thorough': {'shards': 64, 'budget': 700, 'timeout': 7200},
+    'thorough': {'shards': 64, 'budget': 400, 'timeout': 7200},
 }
 LEVEL = 'exploration'
 TECHNIQUE = "runtime monitoring of call histories: class-level hook on KeyCache.__call__ (stale-hit invariant), fresh-build differential per conversion step, threaded histories with sys.monitoring yield injection inside the cache code, structural invariants of the LRU ring at quiescent points"
